@@ -1,4 +1,6 @@
 import JediModel.Proto
+import JediModel.Model.SetIter
+import JediModel.Gen.C02
 import JediModel.Model.PyCore
 import JediModel.Lemmas.PyCoreExact
 import JediModel.Model.ArgBind
@@ -141,6 +143,15 @@ end Lookup
 
 def handle (j : Json) : Json :=
   match str j "op" with
+  | "setiter" =>
+    -- `ValueSet.iterate` over member streams of tags, merged by the function named in the source
+    let ss : List (List Nat) := (arr j "streams").map fun s => (asArr s).map asNat
+    match (JediModel.SetIter.zipperOf JediModel.Gen.C02.iterateZipper : Option (List (List Nat) → _)) with
+    | none => jobj [("cols", .null)]
+    | some z =>
+      let cols := z ss
+      jobj [("cols", jarr (cols.map fun c => jarr (c.map jnat))),
+            ("all", jarr ((JediModel.SetIter.allValues cols).map jnat))]
   | "bind" => Bind.handle j
   | "lookup" => Lookup.handle j
   | "run" =>
